@@ -107,6 +107,12 @@ func c11Run(c *h.Ctx) {
 		}
 		c11Transport(c, id, c.Rng(id), c.Pick(200_000, 1_500_000))
 	}
+	if c.Batch < 2 || c.Thorough() {
+		id := fmt.Sprintf("slow%d", c.Batch)
+		if c.Case(id) {
+			c11SlowPeer(c, id, c.Rng(id))
+		}
+	}
 	for s := 0; s < c.Pick(3, 20); s++ {
 		id := fmt.Sprintf("send%d", s)
 		if !c.Case(id) {
@@ -464,6 +470,111 @@ func c11Transport(c *h.Ctx, id string, r *rand.Rand, total int) {
 	c11Compare(c, id, kind+" transport", blocks, sink.Frames(), det)
 	c.Count("transport_blocks", int64(len(blocks)))
 	c.Distinct(fmt.Sprintf("transport|%s|mtu-lowered=%v", kind, lowMTU))
+}
+
+// c11SlowPeer: the forwarder's TCP transport sends a burst of frames to a peer that does not read
+// for a while (both socket buffers fill up) and then drains everything. What the peer finally reads
+// must be a sequence of whole frames, each one sent, in order - a slow reader may delay frames but
+// must never receive half of one glued to the next.
+func c11SlowPeer(c *h.Ctx, id string, r *rand.Rand) {
+	ln, err := net.Listen("tcp4", "127.0.0.1:0")
+	if err != nil {
+		c.Inconclusive("cannot listen: " + err.Error())
+		return
+	}
+	defer ln.Close()
+	ach := make(chan net.Conn, 1)
+	go func() {
+		cn, _ := ln.Accept()
+		ach <- cn
+	}()
+	peer, err := net.Dial("tcp4", ln.Addr().String())
+	if err != nil {
+		c.Inconclusive("cannot dial: " + err.Error())
+		return
+	}
+	srv := <-ach
+	if srv == nil {
+		c.Inconclusive("accept failed")
+		return
+	}
+	if tc, ok := srv.(*net.TCPConn); ok {
+		_ = tc.SetWriteBuffer(8192)
+	}
+	if tc, ok := peer.(*net.TCPConn); ok {
+		_ = tc.SetReadBuffer(8192)
+	}
+	tr, err := face.AcceptUnicastTCPTransport(srv, nil, face.PersistencyPersistent)
+	if err != nil {
+		c.Inconclusive("cannot build tcp transport: " + err.Error())
+		return
+	}
+	face.NewVerifFrameSink(tr)
+	nFrames := 250 + r.Intn(150)
+	var frames [][]byte
+	for k := 0; k < nFrames; k++ {
+		v := make([]byte, 1200+r.Intn(2500))
+		r.Read(v)
+		v[0], v[1], v[2], v[3] = byte(k>>24), byte(k>>16), byte(k>>8), byte(k)
+		frames = append(frames, tlvwalk.TLV(0x64, v))
+	}
+	sendDone := make(chan struct{})
+	go func() {
+		defer close(sendDone)
+		for _, f := range frames {
+			face.VerifSendFrame(tr, f)
+		}
+	}()
+	time.Sleep(time.Duration(1300+r.Intn(500)) * time.Millisecond) // the peer is busy elsewhere
+	var stream []byte
+	readDone := make(chan struct{})
+	go func() {
+		defer close(readDone)
+		buf := make([]byte, 65536)
+		for {
+			_ = peer.SetReadDeadline(time.Now().Add(20 * time.Second))
+			n, err := peer.Read(buf)
+			stream = append(stream, buf[:n]...)
+			if err != nil {
+				return
+			}
+		}
+	}()
+	select {
+	case <-sendDone:
+	case <-time.After(60 * time.Second):
+		c.Inconclusive("the sender did not finish within 60 s")
+		return
+	}
+	tr.Close()
+	<-readDone
+	c.Eval(1)
+	det := map[string]any{"plan": "tcp-slow-peer", "frames_sent": nFrames, "stream_bytes": len(stream)}
+	nodes, werr := tlvwalk.Walk(stream, 0, len(stream), nil, false)
+	if werr != nil {
+		c.Violation("C11:send-side:slow-peer-stream-not-a-frame-sequence", id, "what a slow TCP peer finally read is not a sequence of whole frames: "+werr.Error(), det)
+		return
+	}
+	next := 0
+	for _, n := range nodes {
+		blk := stream[n.Off:n.End]
+		// frames may be dropped as a whole by a transport under pressure, never altered or reordered
+		found := -1
+		for k := next; k < len(frames) && k < next+len(frames); k++ {
+			if bytes.Equal(frames[k], blk) {
+				found = k
+				break
+			}
+		}
+		if found < 0 {
+			det["frame_len"] = len(blk)
+			c.Violation("C11:send-side:slow-peer-frame-altered", id, "a frame read by a slow TCP peer is not one of the frames sent (split, merged or reordered)", det)
+			return
+		}
+		next = found + 1
+	}
+	c.Count("slow_peer_frames", int64(len(nodes)))
+	c.Distinct("send-side|tcp-slow-peer")
 }
 
 // c11SendSide: several goroutines send blocks as multi-buffer wires on ONE StreamFace; the peer
